@@ -31,7 +31,7 @@ m = dict(
     engines=[dict(name="coq-model+correspondence", path="check", serves_properties=sorted(ENTRIES),
                   kind_free_text="Coq 8.16.1 theorems over hand-written Gallina models (coq/theories), extracted to OCaml (driver/) and run against the implementation on generated cases (harness/)")],
     checks=checks,
-    notes="See DESIGN.md. Every check: regenerate Generated/Consts.v from /repo, make the Coq project, re-check Props/<ID>.v with Print Assumptions, run the correspondence + property predicates on the implementation in /repo's working tree, write evidence/<ID>.json.",
+    notes="See DESIGN.md. Every check: regenerate Generated/*.v from /repo (per-file fail-closed), make the Coq project, re-check Props/<ID>.v with Print Assumptions, run the correspondence + property predicates on the implementation in /repo's working tree, write evidence/<ID>.json.",
     not_applicable=[dict(property_id=k, reason=v) for k, v in sorted(NOT_APPLICABLE.items())],
 )
 json.dump(m, open(os.path.join(VERIF, "MANIFEST.json"), "w"), indent=1)
